@@ -19,6 +19,7 @@ import PPProofs.Props.C20Links
 #print axioms PP.Diagram.no_empty_placeholder_output_partial
 #print axioms PP.Diagram.no_empty_placeholder_tree_partial
 #print axioms PP.Diagram.no_dangling_reference
+#print axioms PP.Diagram.no_empty_placeholder_of_acyclic_partial
 #print axioms PP.Diagram.conv_HS
 #print axioms PP.Diagram.conv_KD
 #print axioms PP.Diagram.conv_step
